@@ -10,6 +10,9 @@ BUILT = {
 PLANNED = {}
 BUILT["C11"] = ("MRC/REC/EM map files: seeded sessions write/read/convert over a shared namespace with foreign (other-software) files, "
                 "overwrite refusal, restarts, disk faults and crashes; independent MRC and EM byte parsers + array model", "4/C11")
+BUILT["C02"] = ("STAR files: seeded sessions write/read lists of tables; foreign actor drops STAR texts in every permitted layout "
+                "(comments, blank lines, #n suffixes, tabs/space runs, CRLF, no final newline); disk faults, crashes, restarts; "
+                "independent STAR tokenizer + block/column/row model", "4/C02")
 NA = {
  "C06": "pure functions of their array arguments (rotation geometry); no file, history, schedule, clock or allocator dependence for a simulator to vary - input sampling alone would be property-based testing, not simulation (DESIGN.md section 5)",
  "C07": "pure selection rule on one call's arguments (distance suppression / peak extraction); nothing for a scheduler or fault injector to vary (DESIGN.md section 5)",
